@@ -29,7 +29,7 @@ REQUIRED_CLASSES = ["op:transfer", "op:distribute", "op:aspirate", "op:dispense"
 
 
 @st.composite
-def _case(draw, focus):
+def _case(draw, focus, tier="quick"):
     n = draw(st.sampled_from([1, 2, 2, 2, 3]))
     names = ["Alpha", "Beta plate", "Gamma_3"]
     labs = []
@@ -55,12 +55,12 @@ def _case(draw, focus):
         "M": draw(st.sampled_from([7, 50, 950, 33.3])),
         "auto_split": draw(st.sampled_from([True, True, False])),
         "diti": draw(st.sampled_from([False, False, True])),
-        "ops": draw(st.lists(st.one_of(fop, anyop), min_size=1, max_size=10)),
+        "ops": draw(st.lists(st.one_of(fop, anyop), min_size=1, max_size=10 if tier == "quick" else 16)),
     }
 
 
 def strategy(tier, stratum):
-    return _case(stratum)
+    return _case(stratum, tier)
 
 
 def _compare_records(obs, specs, r_evo, r_flu, desc):
